@@ -352,7 +352,7 @@ VMLoop:
 			if bp == 0 {
 				bp = vm.curFrame.fn.NumLocals + 1
 			}
-			if numRet == 1 {
+			if numRet == 1 && !vm.curFrame.discardRet {
 				vm.stack[bp-1] = vm.stack[vm.sp-1]
 			} else {
 				vm.stack[bp-1] = Undefined
@@ -775,6 +775,7 @@ func (vm *VM) initCurrentFrame() {
 	}
 
 	vm.curFrame.errHandlers = nil
+	vm.curFrame.discardRet = false
 	vm.curFrame.basePointer = 0
 }
 
@@ -1143,6 +1144,11 @@ func (vm *VM) xOpCallCompiled(cfunc *CompiledFunction, numArgs, flags int) error
 
 		if nextOp == OpReturn ||
 			(nextOp == OpPop && OpReturn == vm.curInsts[vm.ip+2+2]) {
+			if nextOp == OpPop {
+				// call in statement position, the frame returns undefined
+				// whatever the callee returns.
+				vm.curFrame.discardRet = true
+			}
 			curBp := vm.curFrame.basePointer
 			copy(vm.stack[curBp:curBp+numLocals], vm.stack[basePointer:])
 			newSp := vm.sp - numArgs - 1
@@ -1167,6 +1173,7 @@ func (vm *VM) xOpCallCompiled(cfunc *CompiledFunction, numArgs, flags int) error
 	frame.freeVars = cfunc.Free
 	frame.errHandlers = nil
 	frame.basePointer = basePointer
+	frame.discardRet = false
 
 	vm.curFrame.ip = vm.ip + 2
 	vm.curInsts = cfunc.Instructions
@@ -1508,6 +1515,7 @@ type frame struct {
 	ip          int
 	basePointer int
 	errHandlers *errHandlers
+	discardRet  bool
 }
 
 func getFrameSourcePos(frame *frame) parser.Pos {
